@@ -77,6 +77,10 @@ impl ContextCallback for CbRecorder {
 }
 
 pub fn make_state(connectors: Vec<Arc<dyn Connector>>, history_size: usize) -> Arc<GlobalState> {
+    make_state_with(connectors, history_size, None)
+}
+
+pub fn make_state_with(connectors: Vec<Arc<dyn Connector>>, history_size: usize, access_log: Option<crate::access_log::AccessLog>) -> Arc<GlobalState> {
     let mut map: HashMap<String, Arc<dyn Connector>> = HashMap::new();
     for c in connectors {
         map.insert(c.name().to_string(), c);
@@ -84,6 +88,7 @@ pub fn make_state(connectors: Vec<Arc<dyn Connector>>, history_size: usize) -> A
     let mut contexts = Contexts::default();
     contexts.history_size = history_size;
     contexts.default_timeout = 600;
+    contexts.access_log = access_log;
     Arc::new(GlobalState {
         rules: Default::default(),
         listeners: Default::default(),
@@ -134,4 +139,24 @@ pub fn block_on<F: std::future::Future>(f: F) -> F::Output {
 /// like block_on but gives up after `secs` of *virtual* time (the paused clock auto-advances when everything is idle)
 pub fn block_on_timeout<F: std::future::Future>(secs: u64, f: F) -> Option<F::Output> {
     RT.with(|rt| rt.block_on(async { tokio::time::timeout(std::time::Duration::from_secs(secs), f).await.ok() }))
+}
+
+/// Drive a future that depends on tokio's blocking pool (file I/O) to completion from synchronous code that already
+/// runs inside a runtime context: poll, and between polls give the pool's real threads time.
+pub fn spin_ready<F: std::future::Future>(fut: F) -> F::Output {
+    use std::task::{Context, Poll, Wake, Waker};
+    struct Noop;
+    impl Wake for Noop {
+        fn wake(self: Arc<Self>) {}
+    }
+    let waker = Waker::from(Arc::new(Noop));
+    let mut cx = Context::from_waker(&waker);
+    let mut fut = Box::pin(fut);
+    for _ in 0..20_000 {
+        if let Poll::Ready(v) = fut.as_mut().poll(&mut cx) {
+            return v;
+        }
+        std::thread::sleep(std::time::Duration::from_micros(200));
+    }
+    super::common::machinery("spin_ready: future did not complete");
 }
